@@ -134,6 +134,7 @@ STREAM_FILES = {
     'synnot': {'ref': 'synnot_v1', 'names': ['synnot_v1', 'synnot_a1']},
     'synenc': {'ref': 'synenc_v1', 'names': ['synenc_v1', 'synenc_a1']},
     'synwild': {'ref': 'synwild_v1', 'names': ['synwild_v1', 'synwild_a1']},
+    'synnum': {'ref': 'synnum_v1', 'names': ['synnum_v1', 'synnum_a1']},
 }
 
 
